@@ -51,7 +51,19 @@ def main(argv):
     try:
         mod, ctx = run_property(prop, tier)
     except extract.ExtractionError as e:
-        print("VIOLATION property=%s replay=/verif/evidence/violations/%s.extraction.json" % (prop, prop))
+        # a tree that does not compile (or that the driver cannot read) decides nothing: fail closed, with evidence
+        vdir = os.path.join(core.evidence_dir(), "violations")
+        os.makedirs(vdir, exist_ok=True)
+        rp = os.path.join(vdir, "%s.extraction.json" % prop)
+        with open(rp, "w") as f:
+            json.dump({"property": prop, "rule": "extraction", "instance": "cargo-check", "detail": str(e)[-3000:]}, f, indent=1)
+        core.write_evidence(prop, {
+            "property_id": prop, "tier": tier, "seed": int(os.environ.get("VERIF_SEED", "0") or 0), "level": "other",
+            "coverage": {"evaluations": 1, "distinct_nontrivial": 0, "obligations": 1, "discharged": 0,
+                         "explanation": "the current tree could not be compiled / analysed, so no rule could be evaluated; the check fails closed",
+                         "samples": [{"rule": "extraction", "verdict": "VIOLATED", "detail": str(e)[-800:]}]},
+            "assumptions": [], "wall_s": 0.0, "violations": 1})
+        print("VIOLATION property=%s replay=%s" % (prop, rp))
         print("  the current tree could not be analysed: %s" % e)
         return 1
     extra = {}
